@@ -141,6 +141,7 @@ pub fn run(sc: &Value) -> Value {
             std::os::unix::fs::symlink("../out/sentinel", dest.join("existing")).unwrap();
             std::os::unix::fs::symlink("nowhere", dest.join("dangling")).unwrap();
             std::os::unix::fs::symlink("../out", dest.join("p")).unwrap();
+            std::os::unix::fs::symlink("../out/absent", dest.join("n")).unwrap();
         }
         _ => {}
     }
